@@ -3,6 +3,7 @@ import AtreeProofs.WorldCodec.MElsOf
 import AtreeProofs.WorldOkPop
 import AtreeProofs.World.HeapStorable
 import AtreeProofs.World.HeapCont
+import AtreeProofs.WorldCodec.Trunc
 /-
   THE ENVIRONMENT OF THE STORABLE INDUCTION (`WC.Env`, StorOk.lean) FOLLOWS FROM THE GLOBAL INVARIANT
   `WorldOk'` (+ the ownership invariant `HeapOk`, which holds along every history) and the decidable
@@ -12,7 +13,8 @@ import AtreeProofs.World.HeapCont
     (`hx.ValidTV`: size ≥ 1, not 65540, below 2³², payload within the content bytes) resp. a proper
     19-byte reference; every map key is a value of the harness;
   * owner address, allocation counter, type infos, counts and seeds fit 64 bits;
-  * digests are 64-bit (`hD`, a hypothesis on the digest functions).
+  * the digests of the STORED keys are 64-bit (`LeafOk.digs`; the invariants are then carried over to
+    the truncated digest functions `truncD`, whose digests are 64-bit for every key: `CInv.trunc`).
 -/
 namespace Atree.WC
 open Atree Atree.Codec Gen World
@@ -40,6 +42,25 @@ structure LeafOk (w : World) (ctr : Nat) : Prop where
   elems : ∀ x c, w.cont? x = some c → ∀ e ∈ c.storedElems, LeafValid w e
   keys  : ∀ x c, w.cont? x = some c → KeysValid c
   width : ∀ x c, w.cont? x = some c → ContWidths c
+  digs  : ∀ x c, w.cont? x = some c → ContKB c
+
+/-- the clauses of the global invariant `WorldOk'` the translation needs (the only one that mentions
+    the digest functions is `conts`) -/
+structure CInv (D : SlabID → DigestFn 4) (w : World) (ctr : Nat) : Prop where
+  legal : legalThreshold w.T = true
+  ids   : World.IdsOk w
+  conts : ∀ x c, w.cont? x = some c → ContOk w.T (D x) ctr c
+  slots : SlotSync w none (fun _ => False)
+  band  : InlBand w
+
+theorem CInv.of_worldOk {D : SlabID → DigestFn 4} {w : World} {ctr : Nat} (H : WorldOk' D w ctr) : CInv D w ctr := by
+  obtain ⟨rank, H⟩ := H
+  exact ⟨H.legal, H.ids, H.conts, H.slots, H.band⟩
+
+/-- the invariant for the truncated digest functions -/
+theorem CInv.trunc {D : SlabID → DigestFn 4} {w : World} {ctr : Nat} (H : CInv D w ctr)
+    (hb : ∀ x c, w.cont? x = some c → ContKB c) : CInv (fun x => truncD (D x)) w ctr :=
+  ⟨H.legal, H.ids, fun x c hx => contOk_trunc (H.conts x c hx) (hb x c hx), H.slots, H.band⟩
 
 /-! ### local values / keys are values / keys of the dictionary (structural) -/
 
@@ -99,8 +120,8 @@ theorem mem_slots_of_stored {T : Nat} (c : Cont) (e : Elem) (h : e ∈ c.storedE
 
 /-- EVERY STORED ELEMENT OF A LIVE CONTAINER IS GOOD: in sync with the container it refers to
     (`SlotSync`), and a valid leaf otherwise (`LeafOk`) -/
-theorem good_of_stored {D : SlabID → DigestFn 4} {rank : SlabID → Nat} {w : World} {ctr : Nat}
-    (H : WorldOkPK D rank (fun _ => False) w ctr) (L : LeafOk w ctr) {x : SlabID} {c : Cont}
+theorem good_of_stored {D : SlabID → DigestFn 4} {w : World} {ctr : Nat}
+    (H : CInv D w ctr) (L : LeafOk w ctr) {x : SlabID} {c : Cont}
     (hx : w.cont? x = some c) : ∀ e ∈ c.storedElems, Good w e := by
   intro e he
   have hleaf := L.elems x c hx e he
@@ -133,8 +154,8 @@ theorem good_of_stored {D : SlabID → DigestFn 4} {rank : SlabID → Nat} {w : 
 
 /-! ### the environment -/
 
-theorem inl_rootSize_le {D : SlabID → DigestFn 4} {rank : SlabID → Nat} {w : World} {ctr : Nat}
-    (H : WorldOkPK D rank (fun _ => False) w ctr) {x : SlabID} {c : Cont} (hx : w.cont? x = some c)
+theorem inl_rootSize_le {D : SlabID → DigestFn 4} {w : World} {ctr : Nat}
+    (H : CInv D w ctr) {x : SlabID} {c : Cont} (hx : w.cont? x = some c)
     (hi : c.isInlined = true) : c.rootSize ≤ 32768 := by
   have h1 := H.band x c hx hi
   have h2 := H.legal
@@ -145,9 +166,8 @@ theorem inl_rootSize_le {D : SlabID → DigestFn 4} {rank : SlabID → Nat} {w :
 
 /-- THE ENVIRONMENT FOLLOWS FROM THE GLOBAL INVARIANT and the side conditions -/
 theorem env_of_worldOk {D : SlabID → DigestFn 4} {w : World} {ctr : Nat}
-    (H : WorldOk' D w ctr) (Hh : HeapOk w ctr) (L : LeafOk w ctr)
+    (H : CInv D w ctr) (Hh : HeapOk w ctr) (L : LeafOk w ctr)
     (hD : ∀ x p, ∀ h ∈ (D x).dg p, h < 2 ^ 64) : Env w := by
-  obtain ⟨rank, H⟩ := H
   have hidlt : ∀ x c id, w.cont? x = some c → id ∈ c.treeIds → id.addr < 2 ^ 64 ∧ id.idx < 2 ^ 64 := by
     intro x c id hx hid
     have h1 := Hh.addr x c id hx hid
